@@ -1,2 +1,77 @@
 (* Props_C07_canon — property theorems of the proof agent owning this topic: only Theorem ... exact ... Qed. Print Assumptions. *)
 From FoxBase Require Import Bytes.
+From FoxRoute Require Import Node Tree WFDef Canon Canon2.
+From Coq Require Import Sorting.Permutation.
+
+(* the executable checker decides the canonical-form predicate *)
+Theorem C07_canonicalb_exact : forall root, canonicalb root = true <-> Canonical root.
+Proof. exact canonicalb_spec. Qed.
+Print Assumptions C07_canonicalb_exact.
+
+Theorem C07_canon_rootsb_exact : forall rs, canon_rootsb rs = true <-> CanonRoots rs.
+Proof. exact canon_rootsb_spec. Qed.
+Print Assumptions C07_canon_rootsb_exact.
+
+(* a canonical method tree is determined by its set of (pattern, route) pairs *)
+Theorem C07_canonical_unique : forall a b,
+  Canonical a -> Canonical b ->
+  (forall x, In x (routes_of a) <-> In x (routes_of b)) ->
+  nkey a = nkey b -> a = b.
+Proof. exact canonical_unique. Qed.
+Print Assumptions C07_canonical_unique.
+
+Theorem C07_canonical_unique_perm : forall a b,
+  Canonical a -> Canonical b -> Permutation (routes_of a) (routes_of b) -> nkey a = nkey b -> a = b.
+Proof. exact canonical_unique_perm. Qed.
+Print Assumptions C07_canonical_unique_perm.
+
+(* ... and already by its set of route values (the pattern is a field of the route) *)
+Theorem C07_canonical_unique_routes : forall a b,
+  Canonical a -> Canonical b ->
+  (forall r, In r (map snd (routes_of a)) <-> In r (map snd (routes_of b))) ->
+  nkey a = nkey b -> a = b.
+Proof. exact canonical_unique_routes. Qed.
+Print Assumptions C07_canonical_unique_routes.
+
+(* root slice / txn: the four fixed verb roots coincide, the custom-method roots coincide as a set *)
+Theorem C07_canon_roots_unique : forall ra rb,
+  CanonRoots ra -> CanonRoots rb ->
+  (forall x, In x (txn_routes ra) <-> In x (txn_routes rb)) ->
+  firstn 4 ra = firstn 4 rb /\ Permutation (skipn 4 ra) (skipn 4 rb).
+Proof. exact canon_roots_unique. Qed.
+Print Assumptions C07_canon_roots_unique.
+
+Theorem C07_canon_txn_unique : forall ta tb : txn,
+  CanonRoots (t_roots ta) -> CanonRoots (t_roots tb) ->
+  (forall x, In x (txn_routes (t_roots ta)) <-> In x (txn_routes (t_roots tb))) ->
+  firstn 4 (t_roots ta) = firstn 4 (t_roots tb) /\
+  Permutation (skipn 4 (t_roots ta)) (skipn 4 (t_roots tb)).
+Proof. exact canon_txn_unique. Qed.
+Print Assumptions C07_canon_txn_unique.
+
+(* bridge to the invariant that the tree operations preserve (WFDef.v / TreeWF*.v) *)
+Theorem C07_WF_root_Canonical : forall root, WF_root root -> Canonical root.
+Proof. exact WF_root_Canonical. Qed.
+Print Assumptions C07_WF_root_Canonical.
+
+Theorem C07_WF_roots_CanonRoots : forall rs, WF_roots rs -> CanonRoots rs.
+Proof. exact WF_roots_CanonRoots. Qed.
+Print Assumptions C07_WF_roots_CanonRoots.
+
+Theorem C07_WF_txn_unique : forall ta tb : txn,
+  WF_txn ta -> WF_txn tb ->
+  (forall x, In x (routes_of_txn ta) <-> In x (routes_of_txn tb)) ->
+  firstn 4 (t_roots ta) = firstn 4 (t_roots tb) /\
+  Permutation (skipn 4 (t_roots ta)) (skipn 4 (t_roots tb)).
+Proof. exact WF_txn_unique. Qed.
+Print Assumptions C07_WF_txn_unique.
+
+(* non-vacuity: two different histories (one with deletes and a re-insert) reach canonical,
+   equal trees; the custom roots differ in order only *)
+Theorem C07_canon_example :
+  CanonRoots (t_roots (run_hist ex_h1)) /\ CanonRoots (t_roots (run_hist ex_h2)) /\
+  firstn 4 (t_roots (run_hist ex_h1)) = firstn 4 (t_roots (run_hist ex_h2)) /\
+  Permutation (skipn 4 (t_roots (run_hist ex_h1))) (skipn 4 (t_roots (run_hist ex_h2))) /\
+  map nkey (skipn 4 (t_roots (run_hist ex_h1))) <> map nkey (skipn 4 (t_roots (run_hist ex_h2))).
+Proof. exact ex_canon_summary. Qed.
+Print Assumptions C07_canon_example.
